@@ -1065,7 +1065,11 @@ pub struct SuperImageVisitor<'a>(&'a DataType);
 
 impl<'a> Visitor<'a, Result<DataType>> for SuperImageVisitor<'a> {
     fn column(&self, column: &'a Column) -> Result<DataType> {
-        Ok(self.0[column.clone()].clone())
+        self.0
+            .hierarchy()
+            .get(column)
+            .map(|data_type| (*data_type).clone())
+            .ok_or_else(|| Error::other(format!("Unknown column: {column}")))
     }
 
     fn value(&self, value: &'a Value) -> Result<DataType> {
